@@ -36,10 +36,10 @@ ASSUMPTIONS = [
 SHARDS = {"quick": 16, "thorough": 16}
 TIMEOUT = {"quick": 1200, "thorough": 14400}
 MINIMUMS = {
-    "quick": {"histories": 300, "runs_checked": 1000, "aborted_runs": 300, "normal_runs": 400, "orphans_invocations": 1000, "crash_points": 40, "exclusivity_rounds": 4},
+    "quick": {"histories": 300, "runs_checked": 1000, "aborted_runs": 300, "normal_runs": 400, "orphans_invocations": 1000, "crash_points": 40, "exclusivity_rounds": 4, "holder_index_observations": 16, "exclusivity_rounds_staggered": 3},
     "thorough": {"histories": 8000, "runs_checked": 30000, "aborted_runs": 9000, "normal_runs": 12000, "orphans_invocations": 30000, "crash_points": 200, "exclusivity_rounds": 40},
 }
-N = {"quick": (480, 1, 4), "thorough": (12000, 5, 40)}
+N = {"quick": (480, 1, 8), "thorough": (12000, 5, 40)}
 INJECT = str(VERIF / "lib" / "inject")
 
 
@@ -235,7 +235,24 @@ try:
                 note(f"OVERLAP {os.getpid()} entered while {holder.read_text()} holds the experiment")
             holder.write_text(str(os.getpid()))
             note(f"enter {os.getpid()}")
-            time.sleep(hold_ms / 1000.0)
+            # the holder submits a real job: its index link must stay in place for as long as it holds the experiment,
+            # whatever the processes that are refused (or wait for) the experiment do in the meantime
+            from xvmodels import zoo
+            xp.workspace.launcher.setenv("PYTHONPATH", %(repo)r + "/src:" + %(verif)r + "/lib")
+            t = zoo.TaskT(x=os.getpid())
+            t.submit()
+            rel = str(t.__xpm__.job.relpath)
+            def indexed():
+                return (xp.jobspath / rel).is_symlink()
+            t0 = time.time()
+            while not indexed() and time.time() - t0 < 30:
+                time.sleep(0.01)  # the link is made by the scheduler thread, shortly after submit() returns
+            if not indexed():
+                note(f"noindex {os.getpid()}")
+            else:
+                note(f"index-after-submit {os.getpid()} True")
+                time.sleep(hold_ms / 1000.0)
+                note(f"index-before-leave {os.getpid()} {indexed()}")
             note(f"leave {os.getpid()}")
             holder.unlink()
 except BaseException as e:
@@ -249,7 +266,20 @@ def part_c(ctx, rounds):
         base.mkdir(exist_ok=True)
         (base / "holder.py").write_text(HOLDER % {"repo": str(REPO), "verif": str(VERIF)})
         env = {"PATH": os.environ.get("PATH", ""), "HOME": os.environ["HOME"], "PYTHONDONTWRITEBYTECODE": "1", "PYTHONPATH": f"{REPO}/src", "XPM_WORKDIR": str(base / "local")}
-        procs = [subprocess.Popen([PYTHON, str(base / "holder.py"), str(base / "ws"), str(base / "HOLDER"), str(ctx.rng.choice([100, 300, 600])), str(base / "log")], env=env, stdout=subprocess.DEVNULL, stderr=subprocess.DEVNULL) for _ in range(ctx.rng.choice([2, 3]))]
+        def start(hold):
+            return subprocess.Popen([PYTHON, str(base / "holder.py"), str(base / "ws"), str(base / "HOLDER"), str(hold), str(base / "log")], env=env, stdout=subprocess.DEVNULL, stderr=subprocess.DEVNULL)
+
+        if (r + ctx.shard) % 2 == 0:
+            # all at once: they race for the experiment
+            procs = [start(ctx.rng.choice([100, 300, 600])) for _ in range(3)]
+        else:
+            # staggered: the contenders arrive while the first process holds the experiment and has a job indexed
+            procs = [start(2500)]
+            t0 = time.time()
+            while time.time() - t0 < 60 and not any(l.startswith("index-after-submit") for l in ((base / "log").read_text().splitlines() if (base / "log").is_file() else [])):
+                time.sleep(0.02)
+            procs += [start(ctx.rng.choice([100, 300])) for _ in range(2)]
+            ctx.count("exclusivity_rounds_staggered")
         ok = True
         for p in procs:
             try:
@@ -273,6 +303,12 @@ def part_c(ctx, rounds):
                 inside = l.split()[1]
             if l.startswith("leave"):
                 inside = None
+            if l.startswith("noindex"):
+                ctx.inconclusive(f"exclusivity round: the holder's job link did not appear within 30 s ({l})")
+            if l.startswith("index-"):
+                ctx.count("holder_index_observations")
+                if l.split()[2] != "True":
+                    ctx.violation("holder-index-disturbed-by-contender", f"{l}: the job link of the process holding the experiment is missing while other processes contend for the experiment", {"log": lines})
         ctx.case({"round": r, "log": lines}, nontrivial=sum(1 for l in lines if l.startswith("enter")) >= 1, sample=lines[:8], max_samples=1)
         shutil.rmtree(base, ignore_errors=True)
 
